@@ -170,7 +170,8 @@ def _merge(total, acc):
         total["extra"][k] = total["extra"].get(k, 0) + v
 
 
-def explore(make_cases, run_case, init=None, timeout=20.0, nworkers=None, flush_every=0.5, confirm_hangs=True):
+def explore(make_cases, run_case, init=None, timeout=20.0, nworkers=None, flush_every=0.5, confirm_hangs=True,
+            max_hangs=40):
     """Run all cases; returns the merged accumulator (with 'hangs' folded into viols as kind 'hang')."""
     nworkers = nworkers or ncores()
     shm = mmap.mmap(-1, 16 * nworkers)
@@ -248,9 +249,26 @@ def explore(make_cases, run_case, init=None, timeout=20.0, nworkers=None, flush_
                 os.close(wk.rfd)
                 total["hang_cases"].append(idx)
                 skips[wk.wid].add(idx)
+                if len(total["hang_cases"]) > max_hangs:
+                    # too many hangs to be worth waiting for: stop here, the run is reported as capped
+                    total["aborted"] = f"more than {max_hangs} hangs; exploration stopped early"
+                    wk.done = True
+                    for other in workers.values():
+                        if not other.done:
+                            try:
+                                os.kill(other.pid, signal.SIGKILL)
+                            except ProcessLookupError:
+                                pass
+                            other.done = True
+                    break
                 spawn(wk.wid, wk.flushed_upto + 1, frozenset(skips[wk.wid]))
     for wk in workers.values():
         try:
+            if total.get("aborted"):
+                try:
+                    os.kill(wk.pid, signal.SIGKILL)
+                except ProcessLookupError:
+                    pass
             os.waitpid(wk.pid, 0)
         except ChildProcessError:
             pass
@@ -417,7 +435,8 @@ def finish(prop_id, level, tier, seed, total, t0, rule, assumptions, bounds, exh
         "states": total["states"],
         "transitions": total["transitions"],
         "traces_validated_against_impl": total["evaluations"] if traces_validated is None else traces_validated,
-        "exhaustive": exhaustive,
+        "exhaustive": bool(exhaustive and not total.get("aborted")),
+        "cap_hit": total.get("aborted"),
         "bounds": bounds,
         "outcomes": total["outcomes"],
         "distinct_outcomes": len(total["outcomes"]),
